@@ -4288,9 +4288,9 @@ class UUID(TraitType):
             )
 
         if object.traits_inited():
-            msg = ("Initializable UUID trait is read-only "
-                   "after initialization")
-            raise TraitError(msg)
+            msg = ("The '{}' trait of {} instance is an initializable UUID "
+                   "trait, read-only after initialization")
+            raise TraitError(msg.format(name, class_of(object)))
 
         if isinstance(value, uuid.UUID):
             return value
